@@ -738,6 +738,43 @@ func c01gen(c *h.Ctx, yield0 func(*h.Case)) {
 		"c01 localstart 1", "c01 arrive 1 2", "c01 flush 1", "c01 thread 1 1", "c01 respond 1", "c01 localstart 1", "c01 flush 1", "c01 expire 1", "c01 arrive 1 3"}})
 	yield(&h.Case{Class: "corpus-localstart", Ops: []string{"c01 arrive 0 1", "c01 arrive 0 2", "c01 thread 0 1", "c01 thread 0 1", "c01 thread 0 1", "c01 thread 0 1", "c01 thread 0 1",
 		"c01 thread 0 2", "c01 localstart 0", "c01 thread 0 2", "c01 thread 0 2", "c01 localstart 1", "c01 arrive 1 3"}})
+	// more than a hundred messages parked on one server at the same time (first-contact messages of many hand-overs
+	// on trees the receiver has never seen, the tree request unanswered meanwhile): the parked list has no bound —
+	// when the tree arrives every one of them is handed over (model: `parked` is an unbounded list, c01_conservation
+	// and c01_quiescent_exactly_once are for every length)
+	for n := 0; n < c01pick(c, 2, 12, 1); n++ {
+		N := 101 + r.Intn(60)
+		if n == 0 {
+			N = 130
+		}
+		cs := &h.Case{Class: "park-many"}
+		twoTrees := n%2 == 1
+		seen := map[int]bool{}
+		for m := 1; m <= N; m++ {
+			t := 0
+			if twoTrees && m%3 == 0 {
+				t = 1
+			}
+			cs.Ops = append(cs.Ops, fmt.Sprintf("c01 arrive %d %d", t, m))
+			steps := 2 // lookup miss, parked
+			if !seen[t] {
+				steps = 5 // … and on to the tree request
+				seen[t] = true
+			} else if r.Intn(5) == 0 {
+				steps = 2 + r.Intn(4)
+			}
+			for k := 0; k < steps; k++ {
+				cs.Ops = append(cs.Ops, fmt.Sprintf("c01 thread %d %d", t, m))
+			}
+		}
+		cs.Ops = append(cs.Ops, "c01 respond 0", "c01 flush 0")
+		if twoTrees {
+			cs.Ops = append(cs.Ops, "c01 respond 1", "c01 flush 1")
+		}
+		c.Count("class=park-many")
+		c.Count(fmt.Sprintf("park-many: %d messages parked", N/50*50))
+		yield(cs)
+	}
 	for n := 0; n < c01pick(c, 150, 3000, 400); n++ {
 		cs := &h.Case{Class: "random"}
 		m := 0
